@@ -103,6 +103,10 @@ def ICallOk (n : Nat) : ICall → Prop
   | .runAtomic f => f < n
   | .eventSend _ => True
 
+/-- the calls a scripted fibre body makes only name fibres that exist -/
+def BCallOk (n : Nat) : BCall → Prop
+  | .run g | .kill g => g < n
+
 /-- the interrupt and the handlers nested in it only name fibres that exist -/
 def IsrOk (n : Nat) (e : Isr) : Prop := ICallOk n e.call ∧ ∀ x ∈ e.nested, ICallOk n x.2
 
@@ -119,6 +123,9 @@ inductive ReachR (n : Nat) : S → Prop
   | nops {s : S} (k : Nat) : ReachR n s → ReachR n { s with nops := k }
   | newItem {s : S} : ReachR n s → ReachR n { s with trace := [], fired := 0 }
   | noYields {s : S} : ReachR n s → ReachR n { s with budget := fun _ => 0 }
+  /-- the script of calls (`fibre_run(g)` / `fibre_kill(g)`) that fibres of kind `scripted` make during their dispatch, and
+      the code they return, are set -/
+  | setBody {s : S} (b : List BCall) (r : Ret) : (∀ c ∈ b, BCallOk n c) → ReachR n s → ReachR n { s with bscript := b, bret := r }
 
 theorem reachR_reach {n : Nat} {s : S} (h : ReachR n s) : Reach s := by
   induction h with
@@ -133,6 +140,7 @@ theorem reachR_reach {n : Nat} {s : S} (h : ReachR n s) : Reach s := by
   | nops k _ ih => exact Reach.nops k ih
   | newItem _ ih => exact Reach.newItem ih
   | noYields _ ih => exact Reach.noYields ih
+  | setBody b r _ _ ih => exact Reach.setBody b r ih
 
 /-- cut for lack of fuel, or a run-to-completion state in which the senders outside `I` are between calls -/
 def Good (n : Nat) (I : List Nat) (s : S) : Prop := s.hung = true ∨ (ReachR n s ∧ ∀ j, j < 3 → j ∉ I → s.ipc j = .idle)
@@ -208,7 +216,7 @@ def ScriptOk (n : Nat) (script : Script) : Prop := ∀ x ∈ script, IsrOk n x.2
 
 /-- no thread sender, and every fibre named exists (`n` = number of fibres) -/
 def ItemOk (n : Nat) : Item → Prop
-  | .main m => MCallOk n m.call ∧ ScriptOk n m.script
+  | .main m => MCallOk n m.call ∧ ScriptOk n m.script ∧ ∀ c ∈ m.body, BCallOk n c
   | .isr e => IsrOk n e
   | .thread _ _ => False
   | .quiesce => True
@@ -251,11 +259,15 @@ theorem good_runItem {n : Nat} {s : S} (h : Good n [] s) (it : Item) (hi : ItemO
   unfold runItem
   have h0 : Good n [] { s with trace := [], fired := 0 } := good_main h rfl (fun hr _ => ReachR.newItem hr) rfl
   cases it with
-  | main m => exact good_callMain (fun p _ h => good_isrGap m.script hi.2 p h) m.call hi.1 h0
+  | main m =>
+    exact good_callMain (fun p _ h => good_isrGap m.script hi.2.1 p h) m.call hi.1
+      (good_main (s := { s with trace := [], fired := 0 }) h0 rfl (fun hr _ => ReachR.setBody _ _ hi.2.2 hr) rfl)
   | isr e => exact good_runIsr h0 e hi
   | thread c script => exact False.elim hi
   | quiesce =>
-    exact good_quiesceLoop 64 _ (good_main (s := { s with trace := [], fired := 0 }) h0 rfl (fun hr _ => ReachR.noYields hr) rfl)
+    exact good_quiesceLoop 64 _ (good_main (s := { ({ s with trace := [], fired := 0 } : S) with budget := fun _ => 0 })
+      (good_main (s := { s with trace := [], fired := 0 }) h0 rfl (fun hr _ => ReachR.noYields hr) rfl) rfl
+      (fun hr _ => ReachR.setBody [] .waiting (fun _ h => absurd h List.not_mem_nil) hr) rfl)
 
 /-- **every state the runner reaches on a history without thread senders (whose calls name existing fibres) is cut for
     lack of fuel, or a `ReachR` state with all senders between calls** -/
@@ -329,6 +341,13 @@ theorem sched_returned (s : S) (r : Ret) : EmitsP SchedObs s.a (returned s r).a 
   · exact EmitsP.trans (emitsP_one s.a (.bodyReturned true) trivial) (sched_finishPass _ _)
   · exact emitsP_one s.a (.bodyReturned false) trivial
 
+theorem sched_bodyStep (s : S) : EmitsP SchedObs s.a (bodyStep s).a := by
+  unfold bodyStep
+  split
+  · exact sched_returned _ _
+  · exact emitsP_refl _
+  · exact emitsP_refl _
+
 theorem sched_bodyOf (s : S) (c : Fid) : EmitsP SchedObs s.a (bodyOf s c).a := by
   unfold bodyOf
   split
@@ -336,6 +355,7 @@ theorem sched_bodyOf (s : S) (c : Fid) : EmitsP SchedObs s.a (bodyOf s c).a := b
   · split <;> exact sched_returned _ _
   · split <;> exact sched_returned _ _
   · exact sched_returned _ _
+  · exact sched_bodyStep _
 
 theorem sched_body (s : S) (c : Fid) : EmitsP SchedObs s.a (body s c).a :=
   EmitsP.trans (emitsP_one s.a (.dispatched c) trivial) (sched_bodyOf _ c)
@@ -361,6 +381,8 @@ theorem sched_afterDrain (s : S) (c : Cont) : EmitsP SchedObs s.a (afterDrain s 
       · exact sched_afterUpdate _
       · exact sched_afterUpdate s
   | pass2 c => exact sched_afterUpdate _
+  | brun g => exact sched_bodyStep _
+  | bkill g => exact EmitsP.trans (emitsP_one s.a (.killed g) trivial) (sched_bodyStep _)
 
 theorem emits_finishPass (s : S) (v : BitVec 32) : Emits s.a (finishPass s v).a := (sched_finishPass s v).mono fun _ => SchedObs.noThread
 theorem emits_returned (s : S) (r : Ret) : Emits s.a (returned s r).a := (sched_returned s r).mono fun _ => SchedObs.noThread
@@ -453,6 +475,7 @@ theorem reachR_emits_inv (P : A → Prop) (hinit : ∀ nf, 1 ≤ nf → P { nf :
   | nops k _ ih => exact ih
   | newItem _ ih => exact ih
   | noYields _ ih => exact ih
+  | setBody b r hb _ ih => exact ih
 
 /-- the monitor's own invariants in executions without thread senders -/
 structure MonB (a : A) : Prop where
